@@ -162,6 +162,23 @@ func (ex *Exec) rangeOf(t *Term) rng {
 				r.uOK, r.ulo, r.uhi = true, a.ulo*b.ulo, a.uhi*b.uhi
 			}
 		}
+		if a.sOK && b.sOK && a.slo > -(1<<31) && a.shi < 1<<31 && b.slo > -(1<<31) && b.shi < 1<<31 {
+			// signed product of small factors: the exact interval, if it fits the width
+			f := fullRng(w)
+			p := [4]int64{a.slo * b.slo, a.slo * b.shi, a.shi * b.slo, a.shi * b.shi}
+			lo, hi := p[0], p[0]
+			for _, v := range p[1:] {
+				if v < lo {
+					lo = v
+				}
+				if v > hi {
+					hi = v
+				}
+			}
+			if lo >= f.slo && hi <= f.shi {
+				r.sOK, r.slo, r.shi = true, lo, hi
+			}
+		}
 	case OSExt:
 		a := ex.rangeOf(t.A[0])
 		if a.sOK {
